@@ -147,7 +147,9 @@ def cost_to_go(gv):
 
 
 # ----------------------------------------------------- controller x POMDP chain
-def pomdp_arrays(pv):
+def pomdp_arrays(pv, obs_order=None):
+    """obs_order: spec observation ids in the order of the model's observation
+    index (a controller's observation axis is defined relative to that index)."""
     T = np.zeros((pv.nS, pv.nA, pv.nS))
     R = np.zeros((pv.nS, pv.nA))
     O = np.zeros((pv.nA, pv.nS, pv.nO))
@@ -158,14 +160,16 @@ def pomdp_arrays(pv):
     for (a, t), d in pv.Ob.items():
         for o, p in d.items():
             O[a, t, o] = p
+    if obs_order is not None:
+        O = O[:, :, list(obs_order)]
     return T, R, O
 
 
-def fsc_value(pv, As, Ns, end_on_absorbing=True):
+def fsc_value(pv, As, Ns, end_on_absorbing=True, obs_order=None):
     """Value of running controller (As[n,a], Ns[n,a,o,m]) from each (node,state).
     end_on_absorbing: an episode ends on entering an absorbing state (no action
     is taken there, nothing is earned there)."""
-    T, R, O = pomdp_arrays(pv)
+    T, R, O = pomdp_arrays(pv, obs_order)
     nN = As.shape[0]
     nS = pv.nS
     live = np.array([0.0 if (end_on_absorbing and s in pv.absorbing) else 1.0 for s in range(nS)])
